@@ -40,6 +40,7 @@ type upload struct {
 }
 
 const c20Src, c20Dst = "/queue/incoming/src", "/queue/dest"
+const c20Third0 = "/queue/third"
 
 func renderUploadCtl(kind, source string, v mVersion, files []upFile) []byte {
 	var sb strings.Builder
@@ -148,8 +149,9 @@ type c20Work struct {
 	TwoMounts bool
 	Watcher   bool
 	Stale     bool
-	SameDir   bool // destination directory == the control file's own directory
-	Hardlinks bool // the destination already holds hard links to the source files (cp -al snapshot)
+	SameDir   bool   // destination directory == the control file's own directory
+	Hardlinks bool   // the destination already holds hard links to the source files (cp -al snapshot)
+	Second    string // "", "Remove" or "Move": a second operation on the same handle after the first succeeded
 }
 
 type c20Result struct {
@@ -216,6 +218,9 @@ func c20Exec(r *rt.Run, w *c20Work, planIdx int, fault simos.Fault, tag string) 
 		}
 	}
 	fs.PutQuiet("/queue/bystander.txt", []byte("bystander"))
+	if w.Second == "Move" {
+		fs.MkdirAllQuiet(c20Third0)
+	}
 	if w.U2 != nil {
 		fs.PutQuiet(path.Join(w.U2.SrcDir, w.U2.CtlName), w.U2.Ctl)
 		for _, f := range w.U2.Files {
@@ -234,8 +239,12 @@ func c20Exec(r *rt.Run, w *c20Work, planIdx int, fault simos.Fault, tag string) 
 	ctlDst := path.Join(dst, u.CtlName)
 	ctlSrc := path.Join(u.SrcDir, u.CtlName)
 
+	phase2 := false
 	// invariants that must hold at every instant of the file-system history
 	fs.AfterOp = func(op *simos.Op) {
+		if phase2 {
+			return // the second operation has its own end-state checks
+		}
 		if w.Op == "Remove" {
 			if _, _, ok := fs.Peek(ctlSrc); !ok {
 				for _, f := range u.Files {
@@ -275,44 +284,58 @@ func c20Exec(r *rt.Run, w *c20Work, planIdx int, fault simos.Fault, tag string) 
 	res := c20Result{}
 	uDone := false
 	var handleFilename string
+	const c20Third = c20Third0
+	var err2 error
+	second2 := false
 	ut := r.Go("U", func() {
 		defer func() { uDone = true }()
 		var err error
 		p := path.Join(u.SrcDir, u.CtlName)
-		if u.Kind == "dsc" {
-			h, e := control.ParseDscFile(p)
-			if e != nil {
-				res.err, res.returned = e, true
-				res.handleFn = "parse"
-				return
-			}
-			switch w.Op {
-			case "Copy":
-				err = h.Copy(dst)
-			case "Move":
-				err = h.Move(dst)
-			case "Remove":
-				err = h.Remove()
-			}
-			handleFilename = h.Filename
-		} else {
-			h, e := control.ParseChangesFile(p)
-			if e != nil {
-				res.err, res.returned = e, true
-				res.handleFn = "parse"
-				return
-			}
-			switch w.Op {
-			case "Copy":
-				err = h.Copy(dst)
-			case "Move":
-				err = h.Move(dst)
-			case "Remove":
-				err = h.Remove()
-			}
-			handleFilename = h.Filename
+		var h interface {
+			Copy(string) error
+			Move(string) error
+			Remove() error
 		}
+		filename := func() string { return "" }
+		if u.Kind == "dsc" {
+			d, e := control.ParseDscFile(p)
+			if e != nil {
+				res.err, res.returned = e, true
+				res.handleFn = "parse"
+				return
+			}
+			h, filename = d, func() string { return d.Filename }
+		} else {
+			ch, e := control.ParseChangesFile(p)
+			if e != nil {
+				res.err, res.returned = e, true
+				res.handleFn = "parse"
+				return
+			}
+			h, filename = ch, func() string { return ch.Filename }
+		}
+		switch w.Op {
+		case "Copy":
+			err = h.Copy(dst)
+		case "Move":
+			err = h.Move(dst)
+		case "Remove":
+			err = h.Remove()
+		}
+		handleFilename = filename()
 		res.err, res.returned = err, true
+		if err == nil && w.Second != "" {
+			// a SECOND operation on the same handle: it must act on where the
+			// upload is now
+			phase2 = true
+			switch w.Second {
+			case "Remove":
+				err2 = h.Remove()
+			case "Move":
+				err2 = h.Move(c20Third)
+			}
+			second2 = true
+		}
 	})
 	var u2err error
 	u2returned := false
@@ -338,7 +361,7 @@ func c20Exec(r *rt.Run, w *c20Work, planIdx int, fault simos.Fault, tag string) 
 	if w.Watcher && w.Op != "Remove" {
 		r.Go("W", func() {
 			sawCreateBeforeWrite := false
-			for i := 0; i < 100000 && !uDone; i++ {
+			for i := 0; i < 100000 && !uDone && !phase2; i++ {
 				fi, err := simos.Stat(ctlDst)
 				if err != nil {
 					continue
@@ -352,6 +375,9 @@ func c20Exec(r *rt.Run, w *c20Work, planIdx int, fault simos.Fault, tag string) 
 						continue
 					}
 					d, err := simos.ReadFile(path.Join(dst, f.Base))
+					if phase2 {
+						return // the uploader has gone on to its second operation
+					}
 					if err != nil || !bytes.Equal(d, f.Content) {
 						k := key
 						if hasSelf(u) {
@@ -392,7 +418,7 @@ func c20Exec(r *rt.Run, w *c20Work, planIdx int, fault simos.Fault, tag string) 
 			if p == "" || p == "/" {
 				continue
 			}
-			if !(p == u.SrcDir || path.Dir(p) == u.SrcDir) && !(p == dst || path.Dir(p) == dst) {
+			if !(p == u.SrcDir || path.Dir(p) == u.SrcDir) && !(p == dst || path.Dir(p) == dst) && !(w.Second == "Move" && (p == c20Third0 || path.Dir(p) == c20Third0)) {
 				what := "touched"
 				switch op.Op {
 				case "open", "read":
@@ -421,6 +447,9 @@ func c20Exec(r *rt.Run, w *c20Work, planIdx int, fault simos.Fault, tag string) 
 		}
 	}
 	for p := range final {
+		if w.Second == "Move" && under(p, c20Third0) {
+			continue
+		}
 		if _, ok := initial[p]; !ok && !under(p, u.SrcDir) && !under(p, dst) {
 			r.Violate("C20/outside-file-changed", w.Op+"/"+u.Kind+"/created", "[%s] %s was created outside source and destination directory", tag, p)
 		}
@@ -468,6 +497,44 @@ func c20Exec(r *rt.Run, w *c20Work, planIdx int, fault simos.Fault, tag string) 
 			}
 		}
 	default: // success
+		if second2 {
+			r.Probe("second-operation-on-the-same-handle")
+			if err2 != nil {
+				if planIdx <= 0 {
+					r.Violate("C20/second-operation", key+"/then-"+w.Second+"/error", "[%s] %s succeeded, then %s on the same handle failed without any fault: %v", tag, w.Op, w.Second, err2)
+				}
+				break
+			}
+			where := dst
+			if w.Second == "Move" {
+				where = c20Third0
+			}
+			for _, f := range append(append([]upFile{}, u.Files...), upFile{Base: u.CtlName, Content: u.Ctl}) {
+				d, _, ok := fs.Peek(path.Join(where, f.Base))
+				_, _, inDst := fs.Peek(path.Join(dst, f.Base))
+				switch w.Second {
+				case "Remove":
+					if inDst {
+						r.Violate("C20/second-operation", key+"/then-Remove/not-removed", "[%s] %s into %s succeeded, then Remove on the same handle returned nil, but %s is still in %s", tag, w.Op, dst, f.Base, dst)
+					}
+				case "Move":
+					if !ok || !bytes.Equal(d, f.Content) || inDst {
+						r.Violate("C20/second-operation", key+"/then-Move/not-moved", "[%s] %s into %s succeeded, then Move to %s on the same handle returned nil, but %s is missing/different there (present=%v) or still in %s (%v)", tag, w.Op, dst, c20Third0, f.Base, ok, dst, inDst)
+					}
+				}
+				if w.Op == "Copy" && !w.SameDir {
+					// the source of the original Copy is not the upload's location any more: untouched
+					src := f.SrcPath
+					if f.Base == u.CtlName {
+						src = ctlSrc
+					}
+					if sd, _, sok := fs.Peek(src); !sok || !bytes.Equal(sd, f.Content) {
+						r.Violate("C20/second-operation", key+"/then-"+w.Second+"/source-touched", "[%s] Copy into %s, then %s on the same handle: the ORIGINAL file %s in the source directory was removed or changed", tag, dst, w.Second, src)
+					}
+				}
+			}
+			break
+		}
 		if hasEscape {
 			break // confinement is reported above; content expectations are undefined
 		}
@@ -561,6 +628,9 @@ func runC20(r *rt.Run, tier string) {
 	}
 	if t.Bool(1, 4, "c20.u2") {
 		w.U2 = genUpload(t, r, "/queue/incoming/src2", "zz9", false)
+	}
+	if w.Op != "Remove" && w.DstState == "dir" && !w.SameDir && !w.Hardlinks && !w.TwoMounts && !anyOdd(w.U) && t.Bool(1, 5, "c20.second") {
+		w.Second = []string{"Remove", "Move"}[t.Draw(2, "c20.secondop")]
 	}
 	faulty := t.Bool(2, 3, "config.faulty")
 	r.Sticky = t.Draw(6, "sched.sticky")
@@ -679,5 +749,5 @@ func init() {
 		},
 		Assumptions: []string{"crash = death of the calling process (completed calls persist); power-loss semantics are not modelled because the library never calls fsync and the property does not promise power-fail durability", "after a crash only the every-instant invariants are demanded; the atomic-failure clause is demanded when an error is returned", "a listed name must resolve to a file directly in the control file's own directory: a subdirectory of it is outside (strict reading of the statement)"},
 	})
-	propProbes["C20"] = []string{"destination-holds-hard-links-to-the-source-files", "destination-is-the-source-directory", "traversal-name", "absolute-name", "name-with-subdirectory", "control-file-lists-itself", "file-needs-several-read-write-calls", "uploader-crashed", "EXDEV-on-rename", "fault-on-control-file-create", "fault-on-control-file-write", "fault-on-control-file-close", "fault-on-control-file-rename", "fault-on-first-file", "fault-on-last-file", "crash-between-last-file-and-control-file", "watcher-ran-between-create-and-first-write-of-control-file"}
+	propProbes["C20"] = []string{"second-operation-on-the-same-handle", "destination-holds-hard-links-to-the-source-files", "destination-is-the-source-directory", "traversal-name", "absolute-name", "name-with-subdirectory", "control-file-lists-itself", "file-needs-several-read-write-calls", "uploader-crashed", "EXDEV-on-rename", "fault-on-control-file-create", "fault-on-control-file-write", "fault-on-control-file-close", "fault-on-control-file-rename", "fault-on-first-file", "fault-on-last-file", "crash-between-last-file-and-control-file", "watcher-ran-between-create-and-first-write-of-control-file"}
 }
